@@ -169,6 +169,17 @@ def make_items(ctx: Ctx, count: int, start: int):
                     if isinstance(op, dict) and "responses" in op and rng.random() < 0.7:
                         op["tags"] = [rng.choice(fam)]
             d.features.add("tag_spelling_variants")
+        if rng.random() < 0.12:
+            # references to schemas the document does not define (plain, and the '<X>ListResponse' / '<X>Response' spellings
+            # the loader has fallbacks for): accepted documents, so everything emitted for them must still import
+            objs = [n for n, sc in d.doc["components"]["schemas"].items() if isinstance(sc, dict) and "properties" in sc]
+            if objs:
+                host = rng.choice(objs)
+                base = rng.choice(objs)
+                tgt = rng.choice(["NoSuchSchema", base + "ListResponse", base + "Response", base + "List"])
+                d.doc["components"]["schemas"][host]["properties"]["danglingRef"] = rng.choice([
+                    {"$ref": f"#/components/schemas/{tgt}"}, {"type": "array", "items": {"$ref": f"#/components/schemas/{tgt}"}}])
+                d.features.add("dangling_ref")
         items.append({"doc": d, "layout": rng.randrange(len(LAYOUTS)), "strategy": rng.choice(STRATEGIES),
                       "n": start + k, "trigger": trig})
     return items
@@ -204,8 +215,7 @@ def run_shard(ctx: Ctx) -> None:
     for k in range(2 if ctx.quick else 40):
         allow = {"free_form_empty_schema", "object_with_extras"} if k % 2 else set()
         extra.append(richgen.generate(ctx.rng, allow=allow))
-    cat = list(enumerate(shapes.all_shapes(2 if ctx.quick else 3)))
-    chunks = [cat[i:i + 30] for i in range(0, len(cat), 30)]
+    chunks = shapes.chunked(2 if ctx.quick else 3, 30)
     for ci, chunk in enumerate(chunks):
         if ctx.mine(ci):
             extra += [shapes.document(chunk), shapes.response_document(chunk), shapes.request_document(chunk)]
